@@ -6,6 +6,7 @@ into a `Poly` over canonical atoms, expanding such local aliases, so that rules
 compare *facts* (affine index forms, slot tables, linear forms) and never text.
 """
 import ast
+import os
 from fractions import Fraction
 
 from .poly import Poly, NotMonomial
